@@ -8,8 +8,8 @@
   arbitrary stream `raw : Nat → Nat` of 64-bit words, so "for every u ∈ [0,1)" is "for every raw".
 
   Sentences of C16 and what carries them:
-    "discrete choices are valid indices"        dice_range, loaded_dice_index, alias_table_valid, alias_sample_index,
-                                                alias_secure_range, bernoulli_range
+    "discrete choices are valid indices"        dice_range, loaded_dice_index, loaded_dice_is_inversion, alias_table_valid,
+                                                alias_sample_index, alias_end_to_end, alias_secure_range, bernoulli_range
     "counts are within range"                   binomial_range (0 ≤ k ≤ n), geometric_ge_one (k ≥ 1, full strength)
     "bounded variates stay within their bounds" unit_uniform_range, uniform_range, triangular_range, std_beta_range,
                                                 PERT_mod_range
@@ -18,8 +18,9 @@
     "the build-time generated ziggurat and alias tables"   exp_tables_ok, nor_tables_ok (decide by the kernel over the tables)
     "alias tables ... probability vectors"      alias_table_valid: for EVERY vector pa (admissible or not) the construction
                                                 terminates (n units of fuel suffice) and yields a valid table
-    "its samples follow the stated distribution"           NOT a theorem here (statistical test evidence in the check);
-                                                alias_mass_partial covers the exactness of a single Vose step
+    "its samples follow the stated distribution"           NOT a theorem here (statistical test evidence in the check), except
+                                                loaded_dice_is_inversion (the scan IS cdf inversion); the exactness of the alias
+                                                table is checked per library-built table in exact rational arithmetic by the check
   IEEE rounding is outside these theorems (trusted base); the check compares the IEEE instantiation `DistF` of the very same
   regenerated text bit for bit with the library and reports where exact and IEEE results differ.
 -/
@@ -44,6 +45,10 @@ theorem unit_uniform_range (raw : Nat → Nat) (k : Nat) (h : Raw64 raw) :
 /-- 0 is attained (raw word below 2^11): the interval is closed at 0 -/
 example : (cmb_random (fun _ => 2047) 0).1 = 0 := by
   unfold cmb_random; simp [cnum_ofNat]
+
+/-- the hypotheses used below are satisfiable -/
+example : Raw64 (fun _ => 18446744073709551615) := fun _ => by norm_num
+example : SqrtLike (fun _ => 0) := ⟨fun _ _ => le_refl _, fun _ _ _ hz _ => hz⟩
 
 /-! ### bounded continuous variates, as far as they are algebraic in u -/
 
@@ -159,6 +164,53 @@ theorem loaded_dice_index (n : Nat) (pa : Nat → Rat) (raw : Nat → Nat) (k : 
   split
   · rw [u32_pred hn hn32]; omega
   · omega
+
+/-- The returned index is the one the inversion method prescribes: with `psum pa j = pa 0 + … + pa (j-1)` and u the uniform
+    variate, every earlier prefix sum is ≤ u and u < psum (r+1) — or the scan ran off the end (u ≥ the whole sum) and the last
+    index is returned.  (`x <= q` instead of `x < q` in the scan, which could return an entry of probability 0 when u = 0,
+    does not satisfy this.) -/
+theorem loaded_dice_is_inversion (n : Nat) (pa : Nat → Rat) (raw : Nat → Nat) (k : Nat)
+    (hn : 0 < n) (hn32 : n < 4294967296) :
+    (∀ j, j < (cmb_random_loaded_dice n pa raw k).1 → psum pa (j + 1) ≤ (cmb_random raw k).1) ∧
+    ((cmb_random raw k).1 < psum pa ((cmb_random_loaded_dice n pa raw k).1 + 1) ∨
+      ((cmb_random_loaded_dice n pa raw k).1 = n - 1 ∧ psum pa n ≤ (cmb_random raw k).1)) := by
+  unfold cmb_random_loaded_dice
+  simp only []
+  generalize (cmb_random raw k).1 = u
+  generalize hr : forLoop n _ 0 _ = r
+  have key : (r.1 = n ∧ ∀ j, j < n → psum pa (j + 1) ≤ u) ∨
+      (r.1 < n ∧ (∀ j, j < r.1 → psum pa (j + 1) ≤ u) ∧ u < psum pa (r.1 + 1)) := by
+    rw [← hr]
+    refine forLoop_cases n _ (fun j (q : Rat) => q = psum pa j ∧ ∀ j', j' < j → psum pa (j' + 1) ≤ u) 0 _ (Nat.zero_le _)
+      ⟨rfl, by intro j' h; omega⟩ ?_
+      (fun r => (r.1 = n ∧ ∀ j, j < n → psum pa (j + 1) ≤ u) ∨
+        (r.1 < n ∧ (∀ j, j < r.1 → psum pa (j + 1) ≤ u) ∧ u < psum pa (r.1 + 1))) ?_ ?_
+    · intro j t _ hj ⟨hq, hall⟩ hb
+      by_cases hlt : u < t + pa j
+      · simp [hlt] at hb
+      · simp only [hlt, if_false]
+        refine ⟨by rw [hq]; rfl, ?_⟩
+        intro j' hj'
+        by_cases e : j' = j
+        · subst e; show psum pa j' + pa j' ≤ u; rw [← hq]; linarith
+        · exact hall j' (by omega)
+    · intro t ⟨_, hall⟩; exact Or.inl ⟨rfl, hall⟩
+    · intro j t hj ⟨hq, hall⟩ hb
+      by_cases hlt : u < t + pa j
+      · refine Or.inr ⟨hj, hall, ?_⟩
+        show u < psum pa j + pa j
+        rw [← hq]; exact hlt
+      · simp [hlt] at hb
+  rcases key with ⟨h1, h2⟩ | ⟨h1, h2, h3⟩
+  · have e : u32 (n + 4294967296 - 1) = n - 1 := u32_pred hn hn32
+    simp only [h1, ge_iff_le, le_refl, if_true, e]
+    refine ⟨fun j hj => h2 j (by omega), Or.inr ⟨trivial, ?_⟩⟩
+    have := h2 (n - 1) (by omega)
+    have e2 : n - 1 + 1 = n := by omega
+    rw [e2] at this; exact this
+  · have : ¬ r.1 ≥ n := by omega
+    simp only [this, if_false]
+    exact ⟨h2, Or.inl h3⟩
 
 /-- `cmb_random_geometric(p) ≥ 1` — at full strength: every p (in particular p = 1), every exponential variate (in
     particular 0.0), every cache content.  Against the source as it stood the statement fails at p = 1
